@@ -1,33 +1,12 @@
-"""C01 — every explicit source→sink flow is reported (engine P).
-Alphabet: gen.Steps × contexts × source/sink forms. Bound: (k,d) slices + valuation horizon H. Oracle: native token
-execution over all valuations ⊆ reported flows, under every soundness-preserving configuration."""
-import json, os, shutil, subprocess, sys
-import concurrent.futures as cf
+"""C01 — every explicit source→sink flow is reported (engine P, DESIGN.md §6 C01)."""
+import sys
 sys.path.insert(0, '/verif/lib')
-import vlib
-from vlib import V
+import vlib, taintfam
 
 TIERS = {
     'quick': dict(bounds='k2d0+k1d1', cfgs='c01q', horizon=6, cli=24),
     'thorough': dict(bounds='k3d0+k2d1+k1d2', cfgs='c01', horizon=8, cli=120),
 }
-CFG_LABELS = {
-    'c01q': ['default', 'fs', 'od', 'fs+od', 'pf=main', 'pf=nomatch'],
-    'c01': [f"{'fs' if fs else 'nofs'}+{'od' if od else 'eager'}+pf={pf or 'none'}" for fs in (0, 1) for od in (0, 1)
-            for pf in ('', 'main', 'nomatch')],
-}
-
-
-def cli_run(sig):
-    d = vlib.scratch('cli')
-    try:
-        vlib.vp('emit', '-sig', sig, '-dir', d)
-        r = subprocess.run([f'{V}/bin/argot', 'taint', '-config', 'config.yaml', './main'], cwd=d, capture_output=True,
-                           text=True, env=vlib.GOENV, timeout=600)
-        out = r.stdout + r.stderr
-        return dict(sig=sig, rc=r.returncode, detected='Taint flows detected' in out, crashed='panic:' in out or 'goroutine ' in out)
-    finally:
-        shutil.rmtree(d, ignore_errors=True)
 
 
 def warm():
@@ -36,96 +15,4 @@ def warm():
 
 
 def main(tier):
-    t = TIERS[tier]
-    rep = vlib.Report('C01', tier)
-    vlib.build()
-    truth, thash = vlib.native_truth('taint', t['bounds'], t['horizon'])
-    recs, deaths = vlib.run_shards('taint', ['-bounds', t['bounds'], '-cfgs', t['cfgs']])
-    labels = CFG_LABELS[t['cfgs']]
-    recs.sort(key=lambda r: r['idx'])
-    seen = {r['idx'] for r in recs}
-    nprog = len(truth)
-    # worker deaths: the analyzer crashed in a goroutine; the case produced no report
-    dead = {}
-    for begin, tail in deaths:
-        parts = begin.split(' ', 2)
-        if len(parts) == 3 and parts[1].isdigit():
-            dead[int(parts[1])] = (parts[2], tail[-600:])
-    if len(seen | set(dead)) != nprog:
-        vlib.tool_error(f'analysis records incomplete: {len(seen)} + {len(dead)} dead of {nprog}')
-    execs = sum(r['Execs'] for r in truth.values())
-    branches = sum(r['Branches'] for r in truth.values())
-    with_flow = sum(1 for r in truth.values() if r['Flows'])
-    outcomes = {}
-    evals = 0
-    dump = open(f'{V}/build/last-C01.jsonl', 'w')
-    samples = []
-    for r in recs:
-        tr = set(truth[r['idx']]['Flows'] or [])
-        if r.get('load_err'):
-            vlib.tool_error(f"generated program does not type-check: {r['sig']}: {r['load_err']}")
-        for ci, res in enumerate(r['results']):
-            evals += 1
-            got = set(res['Flows'] or [])
-            missing = sorted(tr - got)
-            cls = ('flow' if tr else 'noflow', 'panic' if res['Panic'] else ('reported' if got else 'silent'))
-            outcomes[cls] = outcomes.get(cls, 0) + 1
-            if tr:
-                dump.write(json.dumps(dict(atoms=r['atoms'], cfg=labels[ci], failed=bool(missing), sig=r['sig'])) + '\n')
-            if missing:
-                rep.fail(f"{r['sig']} @ {labels[ci]}", r['atoms'],
-                         dict(sig=r['sig'], cfg=labels[ci], truth=sorted(tr), reported=sorted(got), missing=missing,
-                              panic=res['Panic'], err=res['Err'][:300], replay=f"{V}/run replay-taint '{r['sig']}'"),
-                         cfg=labels[ci])
-        if len(samples) < 6 and r['idx'] % max(1, nprog // 6) == 0:
-            samples.append(dict(sig=r['sig'], truth=sorted(tr), reported_default=r['results'][0]['Flows']))
-    dump.close()
-    for idx, (sig, tail) in dead.items():
-        tr = set(truth[idx]['Flows'] or [])
-        if tr:
-            import re
-            atoms = [a for a in re.split(r' \| ', sig)]
-            atoms += [a.split('@')[0] for a in atoms if '@' in a]
-            rep.fail(f'{sig} @ worker-death', atoms, dict(sig=sig, truth=sorted(tr), death=tail))
-    # tool-path conformance: a covering subset through the argot binary
-    cover, picked = set(), []
-    for r in recs:
-        new = [a for a in r['atoms'] if a not in cover]
-        if new and len(picked) < t['cli']:
-            picked.append(r)
-            cover.update(r['atoms'])
-    agree = 0
-    with cf.ThreadPoolExecutor(vlib.NPROC) as ex:
-        for r, c in zip(picked, ex.map(lambda r: cli_run(r['sig']), picked)):
-            inproc = r['results'][0]
-            tr = truth[r['idx']]['Flows']
-            same = (c['detected'] == bool(inproc['Flows'])) and (c['crashed'] == bool(inproc['Panic']))
-            if same:
-                agree += 1
-            else:
-                rep.unrepro.append(dict(kind='in-process/tool-path disagreement', sig=r['sig'], cli=c, inproc=inproc))
-            if tr and c['rc'] == 0:
-                rep.fail(f"{r['sig']} @ cli", r['atoms'], dict(sig=r['sig'], truth=tr, cli=c, note='flow exists but argot exited 0'),
-                         cfg='default')
-    if picked and agree < len(picked):
-        vlib.log(f'WARNING: {len(picked) - agree} in-process/tool-path disagreements (see evidence)')
-    capped = sum(1 for r in truth.values() if r['Capped'])
-    rep.cov = dict(
-        states=execs, transitions=max(branches, 1), traces_validated_against_impl=agree,
-        evaluations=evals, distinct_nontrivial=with_flow,
-        rule='programs = all typed step chains within the (k,d) bounds (deduplicated by canonical signature); each program '
-             'runs natively under every valuation of its Cond() calls (DFS, horizon H); non-trivial = program with >=1 '
-             'natively observed source->sink flow',
-        programs=nprog, bounds=t['bounds'], horizon=t['horizon'], configurations=labels, native_truth_hash=thash,
-        programs_with_flow=with_flow, programs_without_flow=nprog - with_flow, programs_hitting_horizon=capped,
-        outcome_classes={f'{a}/{b}': n for (a, b), n in sorted(outcomes.items())},
-        worker_deaths=len(dead), cli_subset=len(picked), cli_agree=agree,
-        alphabet_steps=len({a for r in recs for a in r['atoms']}),
-        samples=samples,
-    )
-    rep.assumptions = [
-        'small-scope: programs beyond the (k,d) bound / loops beyond horizon H are not covered',
-        'native oracle is one-sided: tokens inside closure environments and buffered channels are invisible to reflect',
-        'site identity by callee name (SourceN / SinkN), one site per name',
-    ]
-    return rep.finish(exhaustive=True)
+    return taintfam.run('C01', 'taint', TIERS[tier], tier)
